@@ -620,3 +620,9 @@ Proof.
   intros Hnp Hb Hd Ho Hlen. apply calls_reach_nomore; try assumption; [apply init_inv2; assumption|].
   rewrite init_potential. exact Hlen.
 Qed.
+
+(* the bound as the property states it *)
+Corollary bound_from_start_3 prs skip data k opt cs : parser_no_panic prs -> parser_bounded prs -> bytes_ok data ->
+  (opt = 0 \/ C_MpegTsPacketSize <= opt) -> 3 * Z.of_nat (length data) + 3 <= Z.of_nat (length cs) ->
+  In (Err E_nomore) (calls full_parsers prs skip cs (init_dstate (new_reader data None k) opt)).
+Proof. intros Hnp Hb Hd Ho Hlen. apply bound_from_start; try assumption. lia. Qed.
